@@ -421,7 +421,9 @@ MORE = {
            'effect as without pack), DB.pack(t, days) for every argument '
            'combination; a pack that raises in these histories is a '
            'violation unless garbage collection met a reference to an '
-           'object that does not exist.',
+           'object that does not exist; the next commit after every pack, '
+           'with a clock that has not moved, gets an id later than '
+           'lastTransaction().',
     'C08': 'Three concurrent packs with a packer-entry oracle, pack+writer '
            'with 64 / 96 / 160-byte buffers (read-ahead and partial flushes), '
            'one ENOSPC at the n-th file-system operation of a pack for every '
